@@ -82,6 +82,12 @@ class StagePeer(object):
         if out == 'malformed':
             self.outbuf += b'this is not an smtp reply\r\n'
             return out
+        if out == '334bad':
+            self.outbuf += b'334 ***not base64***\r\n'
+            return out
+        if out == '334':
+            self.outbuf += b'334 VXNlcm5hbWU6\r\n'        # one more challenge, whatever the client answered
+            return out
         if out == 'badcode':
             self.outbuf += b'999 9.9.9 out of range\r\n'
             return out
